@@ -441,7 +441,7 @@ mod verif_kani_io {
 
     // ---------------------------------------------------------------- metadata I/O (U3)
     use crate::storage::metadata::verif_kani_metadata::{any_metadata, with_generation};
-    use crate::storage::seq_token::verif_kani_seq::stub_crc32c_impl;
+    use crate::storage::seq_token::verif_kani_seq::stub_crc32c_impl_ghost;
 
     pub static mut READ_BUF_TAGS: [u8; 4] = [0; 4]; // [primary valid, backup valid, ..]
     pub static mut READ_GEN: [u64; 2] = [0; 2];
@@ -489,10 +489,10 @@ mod verif_kani_io {
     }
 
     #[kani::proof]
-    #[kani::unwind(120)]
+    #[kani::unwind(140)]
     #[kani::stub(DiskIO::write_sectors_sync, stub_write_sectors_sync)]
     #[kani::stub(DiskIO::flush, stub_flush)]
-    #[kani::stub(crate::storage::seq_token::crc32c_impl, stub_crc32c_impl)]
+    #[kani::stub(crate::storage::seq_token::crc32c_impl, stub_crc32c_impl_ghost)]
     fn write_store_metadata_ordering() {
         let (io, _, _) = any_io();
         let fail_at: usize = kani::any();
@@ -509,7 +509,7 @@ mod verif_kani_io {
                 assert!(n() == 2 && kind(0) == K_WRITE && kind(1) == K_FLUSH && len(0) == FEOX_BLOCK_SIZE, "exactly [write one block, fsync]");
                 let want = if (g0 + 1) % 2 == 0 { 0 } else { 7 };
                 assert!(sector(0) == want, "even new generation -> primary block 0, odd -> backup block 7 (never the copy holding the last durable generation)");
-                assert!(tag(0) == b'F', "the block starts with the signature");
+                assert!(tag(0) == m.signature[0], "the block starts with the encoded image");
             }
             Err(_) => {
                 assert!(m.encode() == before, "on any failure the caller's metadata is unchanged");
